@@ -25,6 +25,10 @@ PREFIXES = [
     ('started', [call('Start')]),
     ('both timeouts', [call('Start'), call('NextTimeout'), call('NextTimeout')]),
     ('dealt, both timeouts', [call('Start'), call('HB', 0, 'vec'), call('HP', 0, 'share'), call('NextTimeout'), call('NextTimeout')]),
+    # scenarios: a complaint of this participant pending / answered, run to the end (the metamorphic checks of the harness insert
+    # refused calls at every position of them)
+    ('own complaint answered, run to the end', [call('Start'), call('HB', 0, 'vec'), call('NextTimeout'), call('HB', 0, 'answer'), call('NextTimeout'), call('End')]),
+    ('complaint of another pending, run to the end', [call('Start'), call('HB', 0, 'vec'), call('HP', 0, 'share'), call('HB', 2, 'complaint'), call('NextTimeout'), call('NextTimeout'), call('End')]),
     ('dealt, ended', [call('Start'), call('HB', 0, 'vec'), call('HP', 0, 'share'), call('NextTimeout'), call('NextTimeout'), call('End')]),
 ]
 
